@@ -122,9 +122,13 @@ type c06World struct {
 	dirIDs    map[string]int
 	nameIDs   map[string]int
 	stapleSer map[string]int
-	orc       *c06Oracle
-	inst      int
-	curInst   string
+	// the chain each issuance returned (digest of the PEM bytes, number of certificates): what is stored
+	// and what is loaded back must be these very bytes
+	chainDigest map[int]string
+	chainBlocks map[int]int
+	orc         *c06Oracle
+	inst        int
+	curInst     string
 
 	plan         *c06Plan
 	cnt          int
@@ -141,7 +145,7 @@ type c06World struct {
 	snapFn   func(o *c06Obs)
 	sink     func(kind, key string)
 	onGenKey func(id int, digest string)
-	onIssued func(ser int, serial, stapleKey string)
+	onIssued func(ser int, serial, stapleKey, chainDigest string, blocks int)
 
 	sPre, sLoad, sSave, sID int
 	revoked                 map[int]bool // model serial -> revoked for key compromise?
@@ -223,11 +227,13 @@ func (i *c06Issuer) Issue(ctx context.Context, csr *x509.CertificateRequest) (*c
 		return nil, certmagic.ErrNoRetry{Err: err}
 	}
 	w.serIDs[leaf.SerialNumber.String()] = ser
+	w.chainDigest[ser] = doubles.Digest(chain)
+	w.chainBlocks[ser] = strings.Count(string(chain), "-----BEGIN CERTIFICATE-----")
 	if len(names) > 0 {
 		sk := certmagic.StorageKeys.OCSPStaple(&certmagic.Certificate{Names: []string{strings.ToLower(names[0])}}, chain)
 		w.stapleSer[sk] = ser
 		if w.onIssued != nil {
-			w.onIssued(ser, leaf.SerialNumber.String(), sk)
+			w.onIssued(ser, leaf.SerialNumber.String(), sk, w.chainDigest[ser], w.chainBlocks[ser])
 		}
 	}
 	return &certmagic.IssuedCertificate{Certificate: chain, Metadata: map[string]any{"harness_issuer": i.key, "n": ser}}, nil
@@ -262,7 +268,8 @@ func c06NewWorld(cfg c06Cfg, subj c06Subject) *c06World {
 	now := time.Now().Truncate(time.Second)
 	w := &c06World{b: doubles.NewMemBackend(), cfg: cfg, subj: subj, now: now, t0: now.Add(-3000 * time.Hour),
 		keyIDs: map[string]int{}, serIDs: map[string]int{}, dirIDs: map[string]int{}, nameIDs: map[string]int{},
-		stapleSer: map[string]int{}, dropped: map[int]bool{}, revoked: map[int]bool{}}
+		stapleSer: map[string]int{}, dropped: map[int]bool{}, revoked: map[int]bool{},
+		chainDigest: map[int]string{}, chainBlocks: map[int]int{}}
 	for i := 0; i < cfg.N; i++ {
 		ca := doubles.NewCA("harness CA " + c06IssuerKeys[i])
 		w.cas = append(w.cas, ca)
@@ -385,6 +392,10 @@ func (w *c06World) seenOf(cert certmagic.Certificate) *c06Seen {
 	if cert.Leaf != nil {
 		if id, ok := w.serIDs[cert.Leaf.SerialNumber.String()]; ok {
 			s.Ser = id
+			// loading back yields the same bytes: the whole chain, not just the leaf
+			if n, ok := w.chainBlocks[id]; ok && len(cert.Certificate.Certificate) != n {
+				s.Ser = 777777
+			}
 		}
 	}
 	if sg, ok := cert.PrivateKey.(crypto.Signer); ok {
@@ -676,6 +687,11 @@ func (w *c06World) snapshotFrom(o *c06Obs, keys []string, get func(string) []byt
 						val = w.valClass(leaf.NotAfter)
 						if id, ok := w.serIDs[leaf.SerialNumber.String()]; ok {
 							ser = id
+							// the stored file must be the chain the issuer returned, byte for byte; otherwise
+							// it does not count as a certificate for the subject
+							if d, ok := w.chainDigest[id]; ok && d != doubles.Digest(data) {
+								sub = 999999
+							}
 						}
 					}
 				}
